@@ -27,7 +27,12 @@ MIRRORS = {
     # ... and the delays that enter the law are samples of the configured distributions (what warmup binds the samplers to)
     "C04": [("c03", {"C03.tiling": "C04.ts_max"}, ()), ("c15", {"C15.default": "C04.phase"}, ()), ("c16", {"C16.bind": "C04.end"}, ())],
     # generated delays are the clipped samples of the configured distributions
-    "C12": [("c15", {"C15.nonneg": ("C12.scan", "StaticDist.sample")}, ())],
+    "C12": [("c15", {"C15.nonneg": ("C12.scan", "StaticDist.sample")}, ()),
+            # ... and a trainable connection is generated with its minimal delay (the compiled runtime adds the rest; it can only shift later)
+            ("c10", {"C10.generate": "C12.scan"}, ())],
+    # the interpolation samples the signal at step start minus the *current* delay: the distribution carried in the input state is the
+    # one applied, once per input and step, with the sender's rate and the step's start time
+    "C11": [("c10", {"C10.apply": "C11.knots"}, ())],
     # a delay set between episodes is what the next episode simulates: no pre-drawn sample of the old distribution survives a reset
     "C16": [("c05", {"C05.reset": ("C16.phase", "node.q_sample")}, ()),
             # the trainable delay a graph is initialised with is the configured distribution's (not the expected delay used for the phases)
